@@ -333,6 +333,10 @@ _CACHED_PROJECT_ROOT: Path | None = None
 def get_ignore_parser(project_root: Path | None = None) -> IgnoreDirectiveParser:
     """Get cached ignore parser instance (singleton pattern for performance)."""
     global _CACHED_PARSER, _CACHED_PROJECT_ROOT  # pylint: disable=global-statement
+    if project_root is None and _CACHED_PARSER is not None:
+        # Rules ask without a root: they share the parser of the active project root
+        # (set by the Orchestrator), not one rooted at the working directory
+        return _CACHED_PARSER
     effective_root = project_root or Path.cwd()
     if _CACHED_PARSER is None or _CACHED_PROJECT_ROOT != effective_root:
         _CACHED_PARSER = IgnoreDirectiveParser(effective_root)
